@@ -163,6 +163,120 @@ impl Check for Linear {
 }
 
 // ---------------------------------------------------------------- curve fit
+// ---------------------------------------------------------------- linear fit, exhaustive small integer data
+#[derive(Serialize, Deserialize, Clone)]
+pub struct SmallPt {
+    /// abscissae: distinct integers from -2..=3 in increasing order
+    xs: Vec<i32>,
+    /// first ordinate; the remaining ones are enumerated inside the point
+    y0: i32,
+}
+pub struct SmallLinear;
+impl Check for SmallLinear {
+    type P = SmallPt;
+    fn name(&self) -> &'static str {
+        "linear-fit-small-integers"
+    }
+    fn rule(&self) -> String {
+        "EVERY data set with 3 (quick: also 4 with ordinates in -2..=2; thorough: 4 with ordinates in -4..=4) distinct integer abscissae from -2..=3 and integer ordinates from -4..=4: all sums are exact in floating point, so every exact coincidence (sum x = 0, sum y = 0, sum xy = 0, equal ordinates, exactly collinear data, symmetric abscissae) occurs; slope and intercept against the closed-form least-squares solution from the exact integer sums; signature = (n, which of the sums vanish)".into()
+    }
+    fn points(&self, _t: Tier) -> Vec<SmallPt> {
+        let mut v = vec![];
+        let vals: Vec<i32> = (-2..=3).collect();
+        for n in [3usize, 4] {
+            // all increasing n-subsets
+            let mut idx: Vec<usize> = (0..n).collect();
+            loop {
+                let xs: Vec<i32> = idx.iter().map(|&i| vals[i]).collect();
+                for y0 in -4..=4 {
+                    v.push(SmallPt { xs: xs.clone(), y0 });
+                }
+                let mut k = n;
+                while k > 0 && idx[k - 1] == vals.len() - n + k - 1 {
+                    k -= 1;
+                }
+                if k == 0 {
+                    break;
+                }
+                idx[k - 1] += 1;
+                for j in k..n {
+                    idx[j] = idx[j - 1] + 1;
+                }
+            }
+        }
+        v
+    }
+    fn run(&self, p: &SmallPt) -> Outcome {
+        let mut o = Outcome::new();
+        let n = p.xs.len();
+        let thorough = std::env::args().nth(2).as_deref() == Some("thorough");
+        let range: Vec<i32> = if n == 3 || thorough { (-4..=4).collect() } else { (-2..=2).collect() };
+        if !range.contains(&p.y0) {
+            o.sig = format!("n{}|not-enumerated-in-this-tier", n);
+            return o;
+        }
+        let xs: Vec<f64> = p.xs.iter().map(|x| *x as f64).collect();
+        let mut ys = vec![p.y0; n];
+        let mut classes = std::collections::BTreeSet::new();
+        let mut count = 0u64;
+        // odometer over the remaining ordinates
+        let mut digits = vec![0usize; n - 1];
+        'outer: loop {
+            for (k, d) in digits.iter().enumerate() {
+                ys[k + 1] = range[*d];
+            }
+            count += 1;
+            let (sx, sy, sxx, sxy): (i64, i64, i64, i64) = p.xs.iter().zip(&ys).fold((0, 0, 0, 0), |a, (x, y)| (a.0 + *x as i64, a.1 + *y as i64, a.2 + (*x as i64) * (*x as i64), a.3 + (*x as i64) * (*y as i64)));
+            let den = n as i64 * sxx - sx * sx;
+            let slope = (n as i64 * sxy - sx * sy) as f64 / den as f64;
+            let icpt = (sy as f64 - slope * sx as f64) / n as f64;
+            let yf: Vec<f64> = ys.iter().map(|y| *y as f64).collect();
+            match vcore::guard(|| linear_fit(&xs, &yf)) {
+                Err(m) => {
+                    o.viol("optimize::linear_fit", "no-panic", format!("xs {:?} ys {:?}: {}", p.xs, ys, m));
+                    break 'outer;
+                }
+                Ok(Err(e)) => {
+                    o.viol("optimize::linear_fit", "ok-on-valid-data", format!("xs {:?} ys {:?}: Err({})", p.xs, ys, e));
+                    break 'outer;
+                }
+                Ok(Ok(poly)) => {
+                    let (a, b) = (poly.get_coefficient(1), poly.get_coefficient(0));
+                    let t = 64.0 * EPS * (1.0 + slope.abs() + icpt.abs()) * 8.0;
+                    if !((a - slope).abs() <= t && (b - icpt).abs() <= t && poly.order() <= 1) {
+                        o.viol("optimize::linear_fit", "normal-equations", format!("xs {:?} ys {:?}: got {} x + {}, the least-squares line is {} x + {}", p.xs, ys, a, b, slope, icpt));
+                        break 'outer;
+                    }
+                }
+            }
+            classes.insert(format!("{}{}{}", if sx == 0 { "sx0" } else { "" }, if sy == 0 { "sy0" } else { "" }, if sxy == 0 { "sxy0" } else { "" }));
+            // next ordinate vector
+            let mut k = 0;
+            loop {
+                if k == digits.len() {
+                    break 'outer;
+                }
+                digits[k] += 1;
+                if digits[k] < range.len() {
+                    break;
+                }
+                digits[k] = 0;
+                k += 1;
+            }
+        }
+        o.executions = count;
+        for c in &classes {
+            o.sigs.push(format!("n{}|{}", n, if c.is_empty() { "generic" } else { c }));
+        }
+        o.sig = format!("n{}|{} coincidence classes", n, classes.len());
+        o
+    }
+    fn required(&self, _t: Tier) -> Vec<&'static str> {
+        vec!["sxy0", "sx0sy0", "n4|"]
+    }
+}
+
+// ---------------------------------------------------------------- curve fits
 const MODELS: [&str; 7] = ["p0*x", "p0+p1*x", "p0+p1*x+p2*x^2", "p0+p1*sin+p2*cos+p3*sin2x", "p0*exp(p1*x)", "p0*exp(-(x-p1)^2/(2 p2^2))", "p0/(1+exp(-p1*(x-p2)))"];
 fn nparams(m: usize) -> usize {
     [1, 2, 3, 4, 2, 3, 3][m]
@@ -225,9 +339,9 @@ pub struct FitPt {
     mult: f64,
 }
 pub struct CurveFit;
-const DAMP: [(f64, f64); 4] = [(2.0, 1.5), (0.5, 3.0), (10.0, 1.1), (0.1, 2.0)];
+const DAMP: [(f64, f64); 6] = [(2.0, 1.5), (0.5, 3.0), (10.0, 1.1), (0.1, 2.0), (0.01, 1.5), (0.001, 1.1)];
 /// full grid of (damping, multiplier) over their legal ranges; it contains the resonant pairs mult = damping/(damping-1)
-const DAMPINGS: [f64; 7] = [0.1, 0.5, 1.5, 2.0, 3.0, 5.0, 10.0];
+const DAMPINGS: [f64; 9] = [0.001, 0.01, 0.1, 0.5, 1.5, 2.0, 3.0, 5.0, 10.0];
 const MULTS: [f64; 5] = [1.1, 1.25, 1.5, 2.0, 3.0];
 fn damp_grid(t: Tier) -> Vec<(f64, f64)> {
     let mut v = vec![];
@@ -494,6 +608,7 @@ pub fn main(mut r: Report) -> ! {
         "values between lattice points are not covered".into(),
     ];
     r.run(&Linear);
+    r.run(&SmallLinear);
     r.run(&CurveFit);
     r.run(&Invalid);
     r.finish()
